@@ -80,7 +80,9 @@ var c14Recs sync.Map // token(float64) -> *c14Rec
 var c14Token int64
 var c14Once sync.Once
 
-var c14UserFns = []string{"fa", "fb", "fc", "fe", "fp"}
+// fa fb fc: [name, args...]; fe / fp: error / panic when the first argument is 2; fz: always NULL;
+// fn: NULL when the first argument is 1 (the first row's id), [name, args...] otherwise
+var c14UserFns = []string{"fa", "fb", "fc", "fe", "fp", "fn", "fz"}
 
 func c14IsUser(fn string) bool {
 	for _, u := range c14UserFns {
@@ -130,6 +132,14 @@ func c14Register() {
 						panic("c14: injected panic (string)")
 					}
 					panic(errors.New("c14: injected panic (error)"))
+				}
+				if name == "fz" {
+					return nil, nil
+				}
+				if name == "fn" && len(rest) > 0 {
+					if x, ok := rest[0].(float64); ok && x == 1 {
+						return nil, nil
+					}
 				}
 				return append([]any{name}, rest...), nil
 			})
@@ -636,7 +646,7 @@ func (propC14) InputType() string      { return "(query * list nat)" }
 func (propC14) ObsType() string        { return "C14Run.obs" }
 func (propC14) Exhaustive(string) bool { return false }
 func (propC14) Rule() string {
-	return "random select lists of 1-5 items mixing plain columns and calls of instrumented functions with every qualifier (none, ASYNC, SPIN, SPINASYNC, ONCE, SCOPED, unknown; any letter case), over tables of 0-6 rows; flat, inside a derived table, inside a select-list subquery (dual or a root table) and over a two-dimensional table; latencies zero / random / skewed (first row finishes last); failing and panicking functions; immediate built-ins under ASYNC/SPIN/SPINASYNC; a case is non-trivial when it contains at least one qualified call and one row; distinct = distinct (query, tables, latency)"
+	return "random select lists of 1-5 items mixing plain columns and calls of instrumented functions with every qualifier (none, ASYNC, SPIN, SPINASYNC, ONCE, SCOPED, unknown; any letter case), over tables of 0-6 rows; flat, inside a derived table, inside a select-list subquery (dual or a root table) and over a two-dimensional table; latencies zero / random / skewed (first row finishes last); failing, panicking and NULL-returning functions (a dedicated stream runs ONCE over a function whose first result is NULL, always with >= 2 rows); immediate built-ins under ASYNC/SPIN/SPINASYNC; a case is non-trivial when it contains at least one qualified call and one row; distinct = distinct (query, tables, latency)"
 }
 
 func c14Strp(s string) *string   { return &s }
@@ -669,6 +679,9 @@ func c14GenCall(r *Rand, idx int, nm string, tags *[]string, failing bool) c14It
 	fn := Pick(r, []string{"fa", "fb", "fc"})
 	if failing && r.Chance(50) {
 		fn = Pick(r, []string{"fe", "fp"})
+	} else if r.Chance(20) || (k == "once" && r.Chance(40)) {
+		// NULL results: a memoised NULL is a value like any other
+		fn = Pick(r, []string{"fn", "fn", "fz"})
 	}
 	if r.Chance(30) {
 		fn = strings.ToUpper(fn[:1]) + fn[1:]
@@ -820,6 +833,60 @@ func c14GenImmediate(r *Rand) []Case {
 	return out
 }
 
+// ONCE (and the other strategies) over functions that return NULL, always with at least two rows:
+// after the first row the memo holds NULL, and every later row must see it without a second call
+func c14GenNullOnce(r *Rand) Case {
+	tags := []string{"stream:null-once"}
+	kind := Pick(r, []string{"table", "table", "table", "derived", "multi"})
+	in := c14In{Kind: kind, Lat: Pick(r, []string{"zero", "random", "skew"}), Seed: r.U64() % 100000, Alias: "d", Star: true}
+	call := func(q, fn string, idx int, nm string) c14Item {
+		args := []c14Arg{{Col: "rid"}, {Num: c14Nump(float64(idx))}}
+		if strings.EqualFold(q, "spin") {
+			args = append(args, c14Arg{Str: c14Strp("spin")})
+		}
+		tags = append(tags, "qual:"+strings.ToLower(q), "fn:"+fn)
+		return c14Item{T: "call", Q: q, Fn: fn, Args: args, Nm: nm}
+	}
+	items := []c14Item{call(Pick(r, c14QualSpell["once"]), Pick(r, []string{"fn", "fn", "fz"}), 0, "x1")}
+	extra := []func(i int) c14Item{
+		func(i int) c14Item { return call("ASYNC", Pick(r, []string{"fn", "fz"}), i, fmt.Sprintf("x%d", i+1)) },
+		func(i int) c14Item { return call("SPINASYNC", "fn", i, fmt.Sprintf("x%d", i+1)) },
+		func(i int) c14Item { return call("", Pick(r, []string{"fn", "fz"}), i, fmt.Sprintf("x%d", i+1)) },
+		func(i int) c14Item {
+			return call("once", Pick(r, []string{"fn", "fz", "fa"}), i, fmt.Sprintf("x%d", i+1))
+		},
+		func(i int) c14Item { return c14Item{T: "col", Col: "rid", Nm: fmt.Sprintf("x%d", i+1)} },
+	}
+	n := r.Intn(4)
+	for i := 1; i <= n; i++ {
+		items = append(items, Pick(r, extra)(i))
+	}
+	if r.Chance(30) { // the ONCE call not in first position
+		items[0], items[len(items)-1] = items[len(items)-1], items[0]
+	}
+	in.Items = items
+	nrows := 2 + r.Intn(5)
+	if kind == "multi" {
+		rows := c14GenRows(r, nrows)
+		cut := 1 + r.Intn(nrows-1)
+		in.Dims = [][]map[string]any{rows[:cut], rows[cut:]}
+	} else {
+		in.Rows = c14GenRows(r, nrows)
+	}
+	if kind == "table" && r.Chance(25) {
+		// the same inside a select-list subquery over a root table: its own memo per outer row
+		sub := c14Item{T: "sub", Nm: "s", Src: "table", Rows: c14GenRows(r, 2+r.Intn(2)),
+			Items: []c14Item{call("ONCE", "fn", 10, "z1"), call("", "fa", 11, "z2")}}
+		in.Items = append(in.Items, sub)
+		tags = append(tags, "sub:table")
+	}
+	for i := 0; i < 12; i++ {
+		in.Sched = append(in.Sched, r.Intn(6))
+	}
+	tags = append(tags, "kind:"+kind, "lat:"+in.Lat, fmt.Sprintf("rows:%d", nrows))
+	return Case{Input: in, Tags: tags, Nontrivial: true}
+}
+
 func (propC14) Generate(r *Rand, tier string) []Case {
 	n := 1500
 	if tier == "thorough" {
@@ -833,6 +900,10 @@ func (propC14) Generate(r *Rand, tier string) []Case {
 			kind = "derived"
 		case i%10 == 9:
 			kind = "multi"
+		}
+		if i%12 == 3 {
+			out = append(out, c14GenNullOnce(r))
+			continue
 		}
 		out = append(out, c14GenOne(r, kind, i%6 == 5))
 	}
